@@ -123,3 +123,65 @@ def sweep(f):
         for k, v in read_all(o).items():
             res[lab + "." + k] = v
     return res
+
+
+def linked_objects(f):
+    """(label, object) for every object reached through a LINK (not through its owning container)"""
+    out = []
+
+    def each(lab, fn):
+        try:
+            for k, x in enumerate(fn()):
+                out.append(("%s[%d]" % (lab, k), x))
+        except Exception:
+            pass
+
+    def one(lab, fn):
+        try:
+            x = fn()
+        except Exception:
+            return
+        if x is not None:
+            out.append((lab, x))
+    for lab, o in entities(f):
+        kind = type(o).__name__
+        if kind in ("Block", "Group", "DataArray", "Tag", "MultiTag", "Source", "DataFrame"):
+            one(lab + ".metadata", lambda: o.metadata)
+        if kind == "Section":
+            one(lab + ".link", lambda: o.link)
+        if kind == "Group":
+            for attr in ("data_arrays", "tags", "multi_tags", "data_frames", "sources"):
+                each(lab + "." + attr, lambda a=attr: getattr(o, a))
+        if kind in ("DataArray", "Tag", "MultiTag"):
+            each(lab + ".sources", lambda: o.sources)
+        if kind in ("Tag", "MultiTag"):
+            each(lab + ".references", lambda: o.references)
+        if kind == "MultiTag":
+            one(lab + ".positions", lambda: o.positions)
+            one(lab + ".extents", lambda: o.extents)
+        if kind == "Feature":
+            one(lab + ".data", lambda: o.data)
+    return out
+
+
+def path_sweep(f):
+    """every object reached through a link must answer every read accessor like the object reached through the
+    owning container; returns (number of accessor answers compared, list of differences)"""
+    base = {}
+    for lab, o in entities(f):
+        ident = getattr(o, "id", None)
+        if isinstance(ident, str):
+            base.setdefault((type(o).__name__, ident), (lab, read_all(o)))
+    n, diffs = 0, []
+    for lab, o in linked_objects(f):
+        key = (type(o).__name__, getattr(o, "id", None))
+        if key not in base:
+            diffs.append([lab, "<reached through a link but not through any container>", str(key)])
+            continue
+        blab, want = base[key]
+        got = read_all(o)
+        for k in sorted(set(want) | set(got)):
+            n += 1
+            if want.get(k, "absent") != got.get(k, "absent"):
+                diffs.append([lab + "." + k, want.get(k, "absent"), got.get(k, "absent")])
+    return n, diffs
